@@ -87,6 +87,11 @@ func TestVerif_C01Pipe(t *testing.T) {
 		} else {
 			frames = genStream(rng, cam, 1, streamOpts{Frames: nf, MotionPct: rng.PickInt(30, 60, 100), Clears: rng.PickInt(0, 0, 1)})
 		}
+		if idx%6 == 1 {
+			// config.toml leaves the three recording lengths to their defaults (another connection of
+			// this process was configured otherwise a moment ago)
+			cfg.MinSecs, cfg.MaxSecs, cfg.PreviewSecs, cfg.OmitTimes = 10, 600, 5, true
+		}
 		shortest := idx%6 == 3
 		if shortest {
 			// the shortest recordings there are: min-secs 0, no preview, trigger-frames 1 - a lone
@@ -164,6 +169,9 @@ func TestVerif_C01Pipe(t *testing.T) {
 			}
 			if shortest {
 				c.Count("connections_with_single_frame_recordings", 1)
+			}
+			if cfg.OmitTimes {
+				c.Count("connections_with_default_recording_lengths", 1)
 			}
 			exp, _ := expectRecordings(cfg, cam, frames)
 			var expDone []expRecording
